@@ -107,3 +107,4 @@ def build(eng, tier):
     from . import serde_targets
     serde_targets.add_value_info_target(eng)
     serde_targets.add_tensor_shape_target(eng)
+    serde_targets.add_graph_initializer_target(eng)
